@@ -203,28 +203,71 @@ def boundary_accums(steps, rate, accel):
     return sorted(out)
 
 
+def _directed_case(part, steps, rate, accel, accum, counter):
+    closed = lm_closed(steps, rate, accel, accum)
+    if closed[0] != "done":
+        part.count("long_out_of_domain")
+        return
+    expect = closed[1:]
+    if closed[1] <= 4096:       # model conformance wherever the machine can be stepped
+        if lm_stepped(steps, rate, accel, accum, 4096) != closed:
+            raise AssertionError(f"reference oracles disagree for "
+                                 f"{(steps, rate, accel, accum)}")
+        part.count("model_conformance_checks")
+    for clause, msg in check_lm(steps, rate, accel, accum, expect):
+        _report(part, clause, steps, rate, accel, accum, expect, msg)
+    for clause, msg in check_mirror(steps, rate, accel, accum, expect):
+        _report(part, clause, steps, rate, accel, accum, expect, msg)
+    part.count("impl_cases")
+    part.count(counter)
+    if expect[2] in (0, 1, TWO31 - 1, TWO31 - 2):
+        part.count("exact_boundary_hits")
+
+
 def _boundary_chunk(rows):
     part = core.Part()
     for steps, rate, accel in rows:
         for accum in boundary_accums(steps, rate, accel):
-            closed = lm_closed(steps, rate, accel, accum)
-            if closed[0] != "done":
-                part.count("long_out_of_domain")
+            _directed_case(part, steps, rate, accel, accum, "boundary_directed_cases")
+    return part
+
+
+def turn_rows(ctx):
+    """Reversing moves whose accumulator total, at the tick where the motor turns round (and
+    the ticks next to it), is a chosen few counts short of / past a step boundary: 0, 1, 2, 3,
+    a quarter, a half (-1, +0, +1) and the whole of the turning tick's number - the sizes by
+    which an estimate of the steps made before the turn can be out (half a count per tick
+    for odd accelerations).  Budgets: completed at the turn, and 1, 2, 3 steps after it."""
+    from ..firmware import _turning_tick, lt_total_closed       # pylint: disable=import-outside-toplevel
+    rates = [400000000, 400033039, 123456789, 1800095000, P30 + 1, 500000]
+    accels = [-1000001, -1000000, -70433, -70432, -26012345, -1234567]
+    if ctx.thorough:
+        rates += [P31 - 1, 80000000, 1000000007, 77]
+        accels += [-3, -2, -7, -(1 << 16) - 1, -50353403]
+    out = []
+    for rate, accel in itertools.product(rates, accels):
+        for sgn in (1, -1):
+            r_s, a_s = sgn * rate, sgn * accel
+            turn = _turning_tick(r_s, a_s)
+            if turn is None or turn < 2:
                 continue
-            expect = closed[1:]
-            if closed[1] <= 4096:       # model conformance wherever the machine can be stepped
-                if lm_stepped(steps, rate, accel, accum, 4096) != closed:
-                    raise AssertionError(f"reference oracles disagree for "
-                                         f"{(steps, rate, accel, accum)}")
-                part.count("model_conformance_checks")
-            for clause, msg in check_lm(steps, rate, accel, accum, expect):
-                _report(part, clause, steps, rate, accel, accum, expect, msg)
-            for clause, msg in check_mirror(steps, rate, accel, accum, expect):
-                _report(part, clause, steps, rate, accel, accum, expect, msg)
-            part.count("impl_cases")
-            part.count("boundary_directed_cases")
-            if expect[2] in (0, 1, TWO31 - 1, TWO31 - 2):
-                part.count("exact_boundary_hits")
+            deltas = {0}
+            for size in (1, 2, 3, turn // 4, turn // 2 - 1, turn // 2, turn // 2 + 1, turn):
+                deltas |= {size, -size}
+            for tick in (turn - 1, turn, turn + 1):
+                total = lt_total_closed(r_s, a_s, 0, tick)
+                for delta in sorted(deltas):
+                    accum = (delta - total) % TWO31
+                    before = abs(lt_total_closed(r_s, a_s, accum, turn) // TWO31 - accum // TWO31)
+                    for steps in {max(before, 1), before + 1, before + 2, before + 3}:
+                        out.append((steps, r_s, a_s, accum))
+    return out
+
+
+def _turn_chunk(rows):
+    part = core.Part()
+    for steps, rate, accel, accum in rows:
+        _directed_case(part, steps, rate, accel, accum, "turn_directed_cases")
     return part
 
 
@@ -291,6 +334,7 @@ def run(ctx):
     chunks = [(c, budgets, long_budgets, max_ticks) for c in core.split(rows, 128)]
     part = core.fan_out(ctx, _rows_chunk, chunks)
     part.merge(core.fan_out(ctx, _boundary_chunk, core.split(boundary_rows(ctx), 64)))
+    part.merge(core.fan_out(ctx, _turn_chunk, core.split(turn_rows(ctx), 64)))
     _cannot_move(part)
     from .. import calcseq                 # pylint: disable=import-outside-toplevel
     part.merge(calcseq.explore(ctx, ['calculate_lm']))
@@ -307,7 +351,11 @@ def run(ctx):
                 "budgets not reached in max_ticks use the exact bisection oracle; boundary-directed "
                 "family: budgets up to 2^26 (2^30) x rates x accels with start accumulators "
                 "constructed so that the budget completes exactly on a tick, one count before "
-                "and one count after; non-trivial = "
+                "and one count after; turn-directed family: reversing moves (6 (10) rates x 6 (11) "
+                "accelerations, odd and even, both directions) with start accumulators that put "
+                "the total at the turning tick and its neighbours 0, 1, 2, 3, a quarter, a half "
+                "and the whole turning-tick number of counts short of / past a step boundary, "
+                "budgets completed at the turn and 1..3 steps after it; non-trivial = "
                 "moves that reverse direction before the budget is reached",
         "samples": core.rotate(part.samples, ctx.seed, 4),
         "rows": cnt.get("rows", 0),
@@ -315,6 +363,7 @@ def run(ctx):
         "long_budgets": long_budgets,
         "long_cases": cnt.get("long_cases", 0),
         "boundary_directed_cases": cnt.get("boundary_directed_cases", 0),
+        "turn_directed_cases": cnt.get("turn_directed_cases", 0),
         "steps_in_both_directions_cases": cnt.get("steps_in_both_directions", 0),
         "exact_boundary_hits": cnt.get("exact_boundary_hits", 0),
         "cannot_move_cases": cnt.get("cannot_move_cases", 0),
